@@ -43,7 +43,7 @@ def recipe(c: Check):
                                      detail="the generated reload histories did not exercise a branch the property names"))
     return c.finish(
         rule="health driver: real health.Monitor (tcp and http) against a scripted backend (accept / refuse / dial or answer "
-             "timeout / http status), interval 24 ms, timeout 8 ms; quick: directed sequences (incl. the F-C19 witness) plus "
+             "timeout / http status), interval 40 ms, timeout 100 ms (a case whose callbacks look wrong is re-run once with 300/500 ms before it is reported); quick: directed sequences (incl. the F-C19 witness) plus "
              "sampled sequences of length 3..7 for maxFailed in {<=0, 1..4}; thorough: every sequence of length 7 over "
              "{ok, refuse, timeout, non-2xx} for maxFailed 1..4 and both kinds; per probe the callbacks invoked are compared "
              "with Model.Health.hm_run and with the specification monitor. distinct = distinct (kind, maxFailed, sequence); "
